@@ -503,13 +503,29 @@ pub fn navigation(ctx: &Ctx, rng: &mut Rng, o: &mut Out) {
     Source { lang: SupportLang::C, name: "witness/missing.c".into(), text: "int f( { return 1 }".into() },
     Source { lang: SupportLang::Python, name: "witness/nested-call.py".into(), text: "f(g(h(1)), g(2))\n".into() },
     Source { lang: SupportLang::Tsx, name: "witness/multibyte.tsx".into(), text: "let é = '中𝒳';\r\nlet b = <a>ü</a>;".into() },
+    // error recovery that wraps a MISSING token in its parent rules: zero-width nodes WITH children
+    Source { lang: SupportLang::Bash, name: "witness/zero-width-parent-1.sh".into(), text: "a |".into() },
+    Source { lang: SupportLang::Bash, name: "witness/zero-width-parent-2.sh".into(), text: "a &&\nx=$()".into() },
+    Source { lang: SupportLang::Lua, name: "witness/zero-width-parent.lua".into(), text: "x = ".into() },
+    Source { lang: SupportLang::Css, name: "witness/zero-width-parent.css".into(), text: " { }".into() },
+    Source { lang: SupportLang::CSharp, name: "witness/zero-width-parent.cs".into(), text: "var x = new ;".into() },
     // every UTF-8 lead-byte class boundary (DF, E0, E1, EF, F0, F4) before later nodes of the line
     Source { lang: SupportLang::JavaScript, name: "witness/utf8-classes.js".into(), text: "let s = 'ก'; foo(s)\nlet t = '\u{7FF}\u{800}\u{FFF}\u{1000}\u{FFFD}\u{10000}\u{10FFFF}'; bar(t);\n// ก ࠀ ก\nbaz('ก', \"ก\")".into() },
   ];
   extra.extend(sources);
   for src0 in extra.iter() {
     for v in 0..=variants {
-      let text = if v == 0 { src0.text.clone() } else { corpus::mutate(&src0.text, rng) };
+      let text = if v == 0 {
+        src0.text.clone()
+      } else if v == 1 || v % 5 == 0 {
+        // cut the text right after an unnamed token (operator, bracket, keyword): the recovery of
+        // the parser then tends to invent MISSING tokens wrapped in zero-width parent nodes
+        let g0 = src0.lang.ast_grep(&src0.text);
+        let ends: Vec<usize> = g0.root().dfs().filter(|n| !n.is_named() && n.children().len() == 0 && n.range().len() > 0).map(|n| n.range().end).collect();
+        if ends.is_empty() { corpus::mutate(&src0.text, rng) } else { src0.text[..*rng.pick(&ends)].to_string() }
+      } else {
+        corpus::mutate(&src0.text, rng)
+      };
       let src = Source { lang: src0.lang, name: format!("{}#{v}", src0.name), text };
       let grep = src.lang.ast_grep(&src.text);
       let root = grep.root();
